@@ -235,6 +235,12 @@ def main(ck):
       soft = evaluate(m, d, m_s, d_s, PA, RA, PB, RB, info, tol, True)
       if soft is None:
         continue          # the collider killed the worker on this pose (reported)
+      if soft and tol < 6e-8 * scale_of(info, m, d):
+        # input rule (derivation in checks/c13.py): ccd_tolerance below the rounding level of the GJK stopping test
+        ck.label('ccd_tolerance-below-rounding-level(known finding)')
+        finding('gjk-rounding-sensitive', 'ccd_tolerance %.0e below the rounding level 6e-8*scale of the GJK stopping test: ' % tol
+                + soft[0][0], {k: v for k, v in info.items()})
+        soft = []
       if soft:
         ok = False
         for attempt in range(3 if coaxial else 6):     # (a rotation would destroy the exact alignment that is being tested)
@@ -248,6 +254,10 @@ def main(ck):
         ck.label('gjk-rounding-sensitive(known finding)')
         finding('gjk-rounding-sensitive', soft[0][0], {k: v for k, v in info.items()})
     ck.label('pair:%s-%s' % pair)
+
+  def scale_of(info, m, d):
+    S = [gr.shape_from_model(m, d, 0), gr.shape_from_model(m, d, 1)]      # kinematics of the last evaluated pose
+    return S[0].scale() + S[1].scale() + float(np.linalg.norm(S[0].pos - S[1].pos)) + float(np.linalg.norm(S[1].pos))
 
   def evaluate(m, d, m_s, d_s, PA, RA, PB, RB, info, tol, record):
     soft = []
